@@ -146,6 +146,14 @@ func main() {
 
 	for rep := 0; rep < nrep; rep++ {
 		setup()
+		if rep%2 == 0 {
+			// a request that must be refused (a gNB identifier of 21 / 33 bits), for the PLMN just announced: what the successful NG Setup
+			// announced stays in force for the UE-associated messages that follow
+			p, bits := append([]byte{}, curPlmn...), []uint64{21, 33}[(rep/2)%2]
+			gid := ev.Bytes(rg, 5)
+			r.emit("GetNGSetupRequest", ev.M{"plmn": ev.Ints(p), "gnbId": ev.Ints(gid), "gnbBits": bits, "name": ev.Ints([]byte("refused"))},
+				func() ([]byte, error) { return tglib.GetNGSetupRequest(gid, p, bits, "refused") })
+		}
 		// ---- the wrappers the emulator uses (packet.go) ----
 		for _, ran := range ranIds {
 			n := nas(nasLens[rg.Intn(len(nasLens))])
